@@ -495,6 +495,8 @@ func c18Extra(r *Run, rng *Rng) {
 		c18Protection(r, rng, c18Algs[rng.Intn(7)], c18Pws[rng.Intn(len(c18Pws))], rng.Bool())
 	}
 	c18Ignored(r, rng, mul)
+	c18DvDeletes(r, rng, mul)
+	c18Dvbs(r, rng, mul)
 	c18ProtHistories(r, rng, thorough)
 	c18Lap(r, "protection")
 	c18DefinedNames(r, rng, mul)
@@ -534,6 +536,12 @@ func c18ReplayLine(r *Run, rng *Rng, line string, w []string) {
 			}
 		}
 		c18XorPw(r, sb.String())
+	case "dvdel":
+		var rules []string
+		for _, h := range strings.Split(arg(1), ",") {
+			rules = append(rules, unhx(h))
+		}
+		c18DvDel(r, rules, unhx(arg(2)))
 	case "protun":
 		if arg(2) == "~" {
 			c18ProtUn(r, unhx(arg(1)), "", false)
